@@ -7,6 +7,7 @@ package harness
 import (
 	"encoding/json"
 	"fmt"
+	"math/big"
 	"runtime/debug"
 	"sort"
 	"strings"
@@ -122,6 +123,14 @@ type Exec struct {
 	// Twin (C18): a sibling execution whose alliance module state went through
 	// ExportGenesis -> wipe -> InitGenesis; every later op is applied to both.
 	lastBracket string
+	// OwnerlessSeen: denoms that at some point of this history were in the ownerless-value
+	// state of the listed finding F-C04a (staked total > 0 with zero validator shares after a
+	// 100% slash of every holder). Their accounting is re-anchored by the next delegation with
+	// a share price of very few significant digits; exact per-denom equations are not judged
+	// for them afterwards (counted under F-C04a).
+	OwnerlessSeen map[string]bool
+	// AmpSeen: largest fixed-point amplification (oracle_value.go) observed per denom so far.
+	AmpSeen map[string]*big.Rat
 	Twin    *Exec
 	TwinRes *Res
 	ExportA []byte   // export of the original at the fork
@@ -164,6 +173,18 @@ func NewExec(w *World, oracles ...Oracle) *Exec {
 	x.Ctx = x.Ctx.WithLogger(&capLogger{x: x})
 	x.L.init()
 	return x
+}
+
+// PrecisionCollapsed: the asset went through the ownerless-value state or a state whose
+// amplification exceeded 1e6 (value concentrated by a near-total slash): positions can be
+// over-reported by far more than a unit and over-withdrawn (listed finding F-C04a and its
+// consequences).
+func (x *Exec) PrecisionCollapsed(denom string) bool {
+	if x.OwnerlessSeen[denom] {
+		return true
+	}
+	a := x.AmpSeen[denom]
+	return a != nil && a.Cmp(big.NewRat(1_000_000, 1)) >= 0
 }
 
 func (x *Exec) Label(l string)    { x.Labels[l]++ }
